@@ -150,9 +150,22 @@ def run_lerp(_case=None):
             v, w = sim.equation("curve", t), lerp_ref(x, GF)
             if abs(v - w) > 1e-9:
                 return "graphical function at x=%r evaluates to %r, linear interpolation with clamping gives %r" % (x, v, w)
+    finally:
+        c.cleanup()
+    # explicit, unevenly spaced x points
+    c = Compiled(xmile("m", 0, 12, 1, [dict(kind="aux", name="crowding", eqn="TIME * 40 - 20", gf=GF_UNEVEN, xpts=True)]))
+    try:
+        sim = c.model()
+        for t in [0.0, 0.5, 0.6, 0.75, 0.9, 1.0, 1.25, 1.5, 1.75, 2.0, 2.5, 3.0, 5.5, 10.5, 11.0, 12.0]:
+            x = t * 40 - 20
+            v, w = sim.equation("crowding", t), lerp_ref(x, GF_UNEVEN)
+            if abs(v - w) > 1e-9:
+                return "graphical function with the x points %r at x=%r evaluates to %r, linear interpolation with clamping gives %r" % ([p[0] for p in GF_UNEVEN], x, v, w)
         return None
     finally:
         c.cleanup()
+
+GF_UNEVEN = [(0, 1.0), (10, 0.9), (20, 0.8), (50, 0.6), (100, 0.3), (400, 0.1)]
 
 case = None
 bad = run_lerp(case)
